@@ -302,8 +302,9 @@ func GenFuzz(r *rand.Rand, n int) []*Scenario {
 	nCtl := n / 20
 	nB := n * 23 / 100
 	nC := n * 22 / 100
-	nA := n - nCtl - nB - nC
 	var cs []*fzCase
+	cs = append(cs, fzCorpus()...)
+	nA := n - nCtl - nB - nC - len(cs)
 	cs = append(cs, fzLevelA(rand.New(rand.NewSource(r.Int63())), nA)...)
 	cs = append(cs, fzLevelB(rand.New(rand.NewSource(r.Int63())), nB)...)
 	cs = append(cs, fzLevelC(rand.New(rand.NewSource(r.Int63())), nC)...)
@@ -312,6 +313,41 @@ func GenFuzz(r *rand.Rand, n int) []*Scenario {
 	for i, c := range cs {
 		id := fmt.Sprintf("z%05d", i)
 		out[i] = c.render(id, id)
+	}
+	return out
+}
+
+// fzCorpus is the fixed list of hand-written witnesses that every run contains (whatever the
+// seed and tier): minimal inputs of the defects found so far, kept as regression cases.
+func fzCorpus() []*fzCase {
+	var out []*fzCase
+	// ":literal" whose two arguments are separated by a Unicode space that strings.Fields
+	// honours but the regexp class \s does not
+	for name, sep := range map[string]string{"nbsp": "\u00a0", "vt": "\v", "ideographic": "\u3000", "nel": "\u0085"} {
+		c := &fzCase{class: "corpus/literal-unicode-space-" + name, group: "corpus/literal", positioned: false}
+		c.tdoc = []string{inj("// :literal Extra" + sep + "\"x\"")}
+		c.feat("notation", "literal")
+		out = append(out, c)
+	}
+	// ":typecast" onto a field whose type is a pointer to the universe type error
+	for _, sk := range []string{"ptr-iface-local", "ptr-named-error"} {
+		var s fzFieldKind
+		for _, k := range fzFieldKinds {
+			if k.name == sk {
+				s = k
+			}
+		}
+		c := fzFieldCase(s, fzFieldKind{"ptr-error", "*error"}, "pair", 1)
+		c.class = "corpus/typecast-ptr-error-from-" + sk
+		c.group = "corpus/typecast"
+		out = append(out, c)
+	}
+	// ":recv" with a Go keyword
+	for _, kw := range []string{"func", "type"} {
+		c := &fzCase{class: "corpus/recv-keyword-" + kw, group: "corpus/recv", positioned: true}
+		c.tdoc = []string{inj("// :recv " + kw)}
+		c.feat("notation", "recv")
+		out = append(out, c)
 	}
 	return out
 }
